@@ -270,6 +270,13 @@ impl Sys {
             }
             (k, v) => panic!("op {k} via {v}"),
         };
+        if std::env::var("VERIF_DEBUG").is_ok() && r.0 == "fail" {
+            if let Ok(evs) = e.host().get_diagnostic_events() {
+                for ev in evs.0.iter().rev().take(12).rev() {
+                    eprintln!("DIAG {:?}", ev.event.body);
+                }
+            }
+        }
         json!({"op": op, "res": r.0, "err": r.1, "obs": self.obs()})
     }
 
